@@ -145,8 +145,27 @@ def gen_cases(rng, tier):
                 k = rng.choice(src)
                 h += ['d%d' % K[k], 't%d' % rng.choice([1, 2, T]), 'u%d' % K[k], 't1']
         h += ['t%d' % (T + 30), 'q']
+        # an O-(...) group is typed key by key: while its first keys go down they are ordinary presses, so a shorter sequence made of
+        # those very keys (plain) completes first (known finding plain-sequence-shadows-overlap-group)
+        presses = [k for d, k in ev if d == 'd']
+
+        def flat_orders(sq):
+            outs = [[]]
+            for it2 in sq:
+                if it2[0] == 'k':
+                    outs = [o + [it2[1]] for o in outs]
+                elif it2[0] == 'mod':
+                    mk = {'S': 'lsft', 'C': 'lctl', 'A': 'lalt', 'RA': 'ralt', 'M': 'lmet'}[it2[1]]
+                    outs = [o + [mk] + list(it2[2]) for o in outs]
+                else:
+                    outs = [o + list(q) for o in outs for q in itertools.permutations(it2[1])]
+            return outs
+        # the typist's view: another sequence whose keys, in some permitted order, are the first keys pressed here; the two differ
+        # only in which keys overlap, which is not decided yet when the shorter one completes
+        shadow = any(s2 is not target and any(o == presses[:len(o)] for o in flat_orders(s2))
+                     and (any(it3[0] == 'ov' for it3 in target) or any(it3[0] == 'ov' for it3 in s2)) for s2 in seqs)
         cases.append({'id': 'c12-run-%d' % i, 'cfg': cfg, 'hist': h, 'sub': 'ksim', 'kind': kind, 'mode': mode, 'always': always,
-                      'target_vk': seqs.index(target), 'tags': {'kind': kind, 'mode': mode, 'always_on': always}})
+                      'shadow': shadow, 'target_vk': seqs.index(target), 'tags': {'kind': kind, 'mode': mode, 'always_on': always, 'shadowed': shadow}})
     return cases
 
 
@@ -180,14 +199,16 @@ def oracle(case, it):
                 perms = [p + list(q) + [0x400] for p in perms for q in itertools.permutations(grp)]
                 i = j + 1
             return perms
-        allk = []
+        full, prefixes = set(), set()
         ambiguous = False
         for d in defs:
             for p in expand(d):
-                for q in allk:
-                    if p[:len(q)] == q or q[:len(p)] == p:
-                        ambiguous = True
-                allk.append(p)
+                tp = tuple(p)
+                if tp in full or tp in prefixes or any(tp[:n] in full for n in range(1, len(tp))):
+                    ambiguous = True
+                full.add(tp)
+                for n in range(1, len(tp)):
+                    prefixes.add(tp[:n])
         accepted = bool(it) and it[0].startswith('SEQS')
         if accepted and ambiguous:
             return 'the parser accepted a set of sequences in which one (in some permitted ordering) is a prefix of another'
@@ -200,7 +221,7 @@ def oracle(case, it):
         code = K[VK_OUT[case['target_vk']]]
         n = sum(l.split().count('d%d' % code) for l in it if l.startswith('@'))
         if n != 1:
-            return 'typing a defined sequence within the timeout tapped its virtual key %d times' % n
+            return 'typing a defined sequence within the timeout tapped its virtual key %d times%s' % (n, ' [plain-sequence-shadows-overlap-group]' if case.get('shadow') else '')
     if case.get('mode') == 'hidden-suppressed' and case.get('kind') in ('complete',) and not case.get('always'):
         typed = {K[k] for k in POOL}
         for l in it:
